@@ -983,7 +983,10 @@ class NF:
 
     def body(self, m: ast.FunctionDef, env: Env):
         from . import norm
+        import copy as _copy
         stmts = real_body(m)
+        if any(isinstance(t_, ast.Subscript) or isinstance(s_, ast.Expr) for s_ in stmts for t_ in (getattr(s_, "targets", None) or [None])):
+            stmts = norm.merge_display_building([_copy.deepcopy(s_) for s_ in stmts])
         if any(isinstance(n, ast.For) for s_ in stmts for n in ast.walk(s_)):
             stmts = norm.normalise_loops(stmts)
             stmts = _generator_to_genexp(stmts)
